@@ -5173,7 +5173,7 @@ def jobs_getitem_entry(tier):
 
 # ------------------------------------------------------------------------------------------------ C05 / C09: a negative axis through a record
 @guard
-def h_axis_through_record(meth, axis, nfields=1, outer=(2, 1)):
+def h_axis_through_record(meth, axis, nfields=1, outer=(2, 1), deep_second=False):
     """num / localindex / rpad of a three-level structure built from real nodes - lists of records whose fields are lists over an opaque leaf -
     at the innermost list level, addressed as axis=2 and as axis=-1: both name the same level, so both give the counts / positions / padded
     lists of the innermost lists, field by field, and leave the outer lists and the records as they were"""
@@ -5195,6 +5195,20 @@ def h_axis_through_record(meth, axis, nfields=1, outer=(2, 1)):
         nc.content0 = nc.new_content_in(nc.m.mem, 'leaf_%d' % k, clen, z3.Lambda([kk], kk + k * BASE), const=True)
         nc.lencontent = clen
         nc.m.assume(clen <= 2 ** 20)
+        if deep_second and k == 1:
+            # this field is one list level deeper than the first: the record's branches differ in depth, a negative axis stays unresolved down to
+            # the fields and each field resolves it for itself
+            mid_lens = [(1, 2)[r_ % 2] for r_ in range(n_rec)]
+            in1_lens = [(2, 1, 0)[q_ % 3] for q_ in range(sum(mid_lens))]
+            t1, l1, o1 = build_listoffset64(nc, in1_lens, name='inner1')
+            l1 = [[Elem(z3.simplify(e.val + k * BASE)) for e in lst] for lst in l1]
+            nc.content0, nc.lencontent = t1, BV(len(in1_lens))
+            t_, _l, o_ = build_listoffset64(nc, mid_lens, name='mid1')
+            l_, pos_ = [], 0
+            for m_ in mid_lens:
+                l_.append(l1[pos_:pos_ + m_]); pos_ += m_
+            fields.append(t_); inner_lists_.append(l_)
+            continue
         t_, l_, o_ = build_listoffset64(nc, inner_lens, name='inner%d' % k)
         l_ = [[Elem(z3.simplify(e.val + k * BASE)) for e in lst] for lst in l_]
         fields.append(t_); inner_lists_.append(l_)
@@ -5220,6 +5234,8 @@ def h_axis_through_record(meth, axis, nfields=1, outer=(2, 1)):
     obls = [('%s(axis=%d) does not raise' % (meth, axis), out.raised)]
 
     def per_list(lst):
+        if lst and isinstance(lst[0], list) or (deep_second and lst == [] and False):
+            return [per_list(x) for x in lst]          # the deeper field: its own innermost lists
         if meth == 'num':
             return Elem(BV(len(lst)))
         if meth == 'localindex':
@@ -5244,6 +5260,19 @@ def h_axis_through_record(meth, axis, nfields=1, outer=(2, 1)):
     def replay(model, ent):
         prog, rows = '', []
         for k in range(nfields):
+            if deep_second and k == 1:
+                mid_lens = [(1, 2)[r_ % 2] for r_ in range(n_rec)]
+                in1_lens = [(2, 1, 0)[q_ % 3] for q_ in range(sum(mid_lens))]
+                flat, offs_, inner_rows = [], [0], []
+                for q_, L in enumerate(in1_lens):
+                    row = [500 + 10 * q_ + j for j in range(L)]
+                    flat += row; offs_.append(len(flat)); inner_rows.append(row)
+                mo, frows, pos_ = [0], [], 0
+                for m_ in mid_lens:
+                    frows.append(inner_rows[pos_:pos_ + m_]); pos_ += m_; mo.append(pos_)
+                prog += 'i64 %s listoffset64 %s listoffset64 %s ' % (fullnative.ints(flat), fullnative.ints(offs_), fullnative.ints(mo))
+                rows.append(frows)
+                continue
             flat, offs_, frows = [], [0], []
             for i, L in enumerate(inner_lens):
                 row = [100 * k + 10 * i + j for j in range(L)]
@@ -5255,13 +5284,14 @@ def h_axis_through_record(meth, axis, nfields=1, outer=(2, 1)):
         for L in outer:
             oo.append(oo[-1] + L)
         prog += 'listoffset64 %s ' % fullnative.ints(oo)
-        ref = {'num': len, 'localindex': lambda l: list(range(len(l))), 'rpad': lambda l: py_pad(l, 3, False, None), 'rpad_and_clip': lambda l: py_pad(l, 3, True, None)}[meth]
+        ref0 = {'num': len, 'localindex': lambda l: list(range(len(l))), 'rpad': lambda l: py_pad(l, 3, False, None), 'rpad_and_clip': lambda l: py_pad(l, 3, True, None)}[meth]
+        ref = lambda l: [ref0(x) for x in l] if (l and isinstance(l[0], list)) else ref0(l)
         op = {'num': 'num %d', 'localindex': 'localindex %d', 'rpad': 'rpad 3 %d', 'rpad_and_clip': 'rpadclip 3 %d'}[meth] % axis
         exp = [[{str(k): ref(rows[k][i]) for k in range(nfields)} for i in range(oo[j], oo[j + 1])] for j in range(len(outer))]
         if axis in (1, -2):
             exp = [L if meth == 'num' else list(range(L)) for L in outer]
         return akrun_check(prog + op, exp, 'lists %s of records with %d list-typed fields (inner lengths %s): %s(axis=%d)' % (list(outer), nfields, inner_lens, meth, axis))
-    return mdischarge(nc.m, 'list[record[list]]::%s axis=%d fields=%d outer=%s' % (meth, axis, nfields, ','.join(map(str, outer))), obls, [], replay=replay, prefer=[leaflen <= 24],
+    return mdischarge(nc.m, 'list[record[list]]::%s axis=%d fields=%d outer=%s%s' % (meth, axis, nfields, ','.join(map(str, outer)), ' (second field one level deeper)' if deep_second else ''), obls, [], replay=replay, prefer=[leaflen <= 24],
                       extra=dict(bounds='outer lists %s, %d fields, inner list lengths %s concrete; inner origins and leaf lengths symbolic; three real node levels over opaque leaves' % (list(outer), nfields, inner_lens)))
 
 
@@ -5272,6 +5302,7 @@ def jobs_axis_through_record(tier, meths):
             js += [(h_axis_through_record, (m_, -1, 2), 1800), (h_axis_through_record, (m_, 2, 1), 1800)]
             if m_ in ('num', 'localindex'):
                 js.append((h_axis_through_record, (m_, -2, 1), 1800))
+            js.append((h_axis_through_record, (m_, -1, 2, (2, 1), True), 1800))
         else:
             for outer in ((2, 1), (0, 3), (1, 1, 2), (4,)):
                 for nf in (1, 2, 3):
@@ -5281,6 +5312,8 @@ def jobs_axis_through_record(tier, meths):
                 for ax in (1, -2):
                     for nf in (1, 2):
                         js.append((h_axis_through_record, (m_, ax, nf, (2, 1)), 1800))
+            for outer in ((2, 1), (1, 1, 2)):
+                js.append((h_axis_through_record, (m_, -1, 2, outer, True), 1800))
     return js
 
 
